@@ -1,5 +1,6 @@
 import NibabelModel.Model.C16
 import NibabelModel.Model.C16_Ext
+import NibabelModel.Model.C16_Save
 /-! GENERATED on every run by harness/props/c16.py `regen()` from nibabel/streamlines/tck.py and trk.py
     of the working tree — do not edit.  The `_eq_model` theorems tie the hand-written model to the
     current source text; the property theorems in Props/C16 are stated about these definitions. -/
@@ -53,6 +54,18 @@ def trkOffN : Nat := 988
 def trkOffVersion : Nat := 992
 def trkOffHdrSize : Nat := 996
 
+/-- read off the AST of `TrkFile.save`: are the encoded names written straight into the (inherited) header tables
+    (`header['scalar_name'][i] = …`), or into a fresh `np.zeros(MAX_…, dtype='S20')` table that then replaces the whole
+    field (`header['scalar_name'][:] = table`)?  And does the empty-tractogram branch zero the three counts? -/
+def trkNameTablesInPlace : Bool := false
+def trkEmptyZeroesCounts : Bool := true
+def trkZeroTable : List (List Nat) := List.replicate trkMaxScalars (List.replicate trkNameFieldLen 0)
+
+theorem trkSaveHeader_eq_model :
+    (∀ sup items, Nb.C16.trkSaveItemsFrom trkNameTablesInPlace sup items = Nb.C16.trkSaveItemsH sup items) ∧
+    trkEmptyZeroesCounts = true ∧ trkZeroTable = Nb.C16.zeroFields ∧
+    List.replicate trkMaxProps (List.replicate trkPropFieldLen 0) = Nb.C16.zeroFields :=
+  ⟨fun _ _ => rfl, by decide, by decide, by decide⟩
 theorem readSeek_eq_model : tckReadSeek = Nb.C16.seekFixed ∧ trkReadSeek = Nb.C16.seekFixed := by decide
 theorem trkOffsets_eq_model :
     trkOffNs = Nb.C16.trkOffNs ∧ trkOffScalarNames = Nb.C16.trkOffScalarNames ∧ trkOffNp = Nb.C16.trkOffNp ∧
